@@ -6,7 +6,7 @@ import gen
 import nodecorr as nc
 from nodecorr import w_node, w_nodes, w_onode, r_node, of_impl, canon, shape_of, ids_of
 
-PREFIX = [('set-logic', 'QF_LIA'), ('set-info', ':status', 'sat'), ('set-option', ':x', 'y')]
+PREFIX = [('set-logic', 'QF_LIA'), ('set-info', ':status', 'sat'), ('set-option', ':x', 'y'), '; a header comment\n', '; another one\r']
 
 
 def subtrees(v, acc, path=()):
@@ -212,8 +212,9 @@ def run(ctx):
         if mode == 'apply' and fresh and not same_obj:
             # declarations go after the set-logic/set-info prefix of the result
             pos = 0
-            while pos < len(rv) and rv[pos][0] == 'T' and rv[pos][2] and rv[pos][2][0][0] == 'L' and rv[pos][2][0][2] in ('set-info', 'set-logic'):
-                pos += 1
+            while pos < len(rv) and ((rv[pos][0] == 'L' and rv[pos][2].startswith(';')) or
+                                     (rv[pos][0] == 'T' and rv[pos][2] and rv[pos][2][0][0] == 'L' and rv[pos][2][0][2] in ('set-info', 'set-logic'))):
+                pos += 1          # (a header comment is a top-level leaf: the declarations must come after the set-logic that follows it)
             decl = [of_impl(f) for f in fresh]
             without = [x for x in rv if x not in decl]
             if rv[pos:pos + len(decl)] != decl:
